@@ -14,10 +14,10 @@ Open Scope Z_scope.
 
 (* ------------------------------------------------------------------ (1) the tables of the code are the standard's *)
 (* DESIGN 4.4 T1.  For each of the 32 configurations (byte order x DWARF32/64 x address size x
-   version 2..5) and each of the 45 form codes of DWARF 5 Table 7.6 (+ the two dwz forms) the live
+   version 2..5) and each of the 46 supported form codes (DWARF 5 Table 7.6, DW_FORM_ref of DWARF 1, the two dwz forms) the live
    Dwarf_dw_form dict has a parser under the standard's name, and that parser reads exactly the
    operand encoding the standard prescribes for this version / format / address size
-   (finite: 32 x 45 entries, by vm_compute). *)
+   (finite: 32 x 46 entries, by vm_compute). *)
 Theorem C04_gen_forms_match_standard : forall (c : cfg) (code : Z) (name : string),
   In c all_cfgs -> In (code, name) std_form_names ->
   exists k, std_form_class c code = Some k /\
